@@ -14,7 +14,12 @@ func main() {
 	seed := flag.Int64("seed", 1, "PRNG seed")
 	out := flag.String("out", "", "output directory for case shards")
 	replay := flag.String("replay", "", "replay file")
+	caseTable := flag.Bool("casetable", false, "print coq/Gen/CaseTable.v (the case mappings of this toolchain's unicode package) and exit")
 	flag.Parse()
+	if *caseTable {
+		printCaseTable()
+		return
+	}
 	if *out == "" {
 		fmt.Fprintln(os.Stderr, "need -out")
 		os.Exit(2)
